@@ -517,9 +517,10 @@ func gen(mode string) func(c *hx.Ctx) {
 			c.Emit("procs 1")
 		}
 		if mode == "C04" { // real goroutines racing on one key
-			c.Emit("stress g=8 rounds=%d", w(300, 5000))
+			// never more than 4 Ps under the fake clock (runtime GC live-lock observed with more)
+			c.Emit("stress g=3 rounds=%d", w(600, 8000))
 			c.Count("stress")
-			c.Emit("stress g=3 rounds=%d", w(300, 5000))
+			c.Emit("stress g=2 rounds=%d", w(300, 4000))
 			c.Count("stress")
 		}
 		c.Stats["scenarios_run"] = scenariosRun
@@ -538,7 +539,7 @@ func Main(mode string) {
 			if err != nil || n < 1 {
 				return "bad-script"
 			}
-			runtime.GOMAXPROCS(n)
+			setProcs(n)
 			return "ok"
 		}
 		return exec(c, line)
